@@ -137,18 +137,32 @@ def gatherOpt (idx : List Int) (pos : List (Option Nat)) (f : Frame) : Frame :=
   { idx := idx,
     cols := f.cols.map fun c => (c.1, pos.map fun p => p.bind fun i => (c.2[i]?).join) }
 
-/-- `_df_reindex` on a pandas object, lines 379-384 (`limit=None`):
-  with a fill method  `_nona(ts).reindex(index, method)`  (rows that are entirely NaN are dropped first),
+/-- `_nona(col)` of ONE column: its non-NaN observations (label, value), in order -/
+def obs : List Int → Col → List (Int × Int)
+  | t :: ts, some v :: vs => (t, v) :: obs ts vs
+  | _ :: ts, Option.none :: vs => obs ts vs
+  | _, _ => []
+
+/-- `_nona(col).reindex(idx, method)`: every requested label takes the observation at the last label `≤ t`
+(`ffill`) / the first label `≥ t` (`bfill`) of the NaN-free column, NaN when there is none -/
+def asofPos (d : Dir) (lab : List Int) (t : Int) : Option Nat :=
+  match d with
+  | .ffill => posAsOf lab t
+  | .bfill => posNext lab t
+
+def asofCol (d : Dir) (fidx : List Int) (c : Col) (idx : List Int) : Col :=
+  let o : List (Int × Int) := obs fidx c
+  idx.map fun t => (asofPos d (o.map Prod.fst) t).bind fun (i : Nat) => (o[i]?).map Prod.snd
+
+/-- `_df_reindex` on a pandas object, lines 379-387 (`limit=None`):
+  with a fill method  `_nona(ts).reindex(index, method)` for a Series / one-column frame and (repaired, C03-A2)
+                      column by column for a DataFrame with several columns, `pd.concat(axis=1)` of the results:
+                      each column is joined as-of on ITS OWN non-NaN observations;
   otherwise           `ts.reindex(index)` -/
 def reindexFrame (f : Frame) (idx : List Int) (m : Option Dir) : Frame :=
   match m with
   | Option.none => gatherOpt idx (idx.map (posOf f.idx)) f
-  | some .ffill =>
-      let src := f.gather ((List.range f.nrows).filter f.rowValid)
-      gatherOpt idx (idx.map (posAsOf src.idx)) src
-  | some .bfill =>
-      let src := f.gather ((List.range f.nrows).filter f.rowValid)
-      gatherOpt idx (idx.map (posNext src.idx)) src
+  | some d => { idx := idx, cols := f.cols.map fun c => (c.1, asofCol d f.idx c.2 idx) }
 
 /-- numpy end alignment, lines 392-399 (repaired: `ts[len(ts)-index:]`): keep the last `n` entries, or pad
 `n - len` NaNs in front -/
